@@ -428,15 +428,32 @@ def check_unmask(ctx, prog, fs):
     and the trip count are evaluated for every logical length 0..64 (grid), through single-assignment locals."""
     import bounded
     n = 0
-    for f in fs:
-        def has_xor(st):
-            return any(e.get('k') == 'bin' and e.get('op') == '^=' for e in ir.stmt_exprs(st))
+
+    def has_xor(st):
+        return any(e.get('k') == 'bin' and e.get('op') == '^=' for e in ir.stmt_exprs(st))
+    # a masking helper shared by send() and receive() (`applyMask(buffer, key)`): its loop is the loop of each caller
+    callers = {}
+    helpers = []
+    for f0 in fs:
+        for e in fn_exprs(f0):
+            if e.get('k') == 'call' and e.get('fn') and not e.get('clsp'):
+                for h in prog.fn(e['fn'], e.get('sig')):
+                    if h.get('body') and (h.get('file') or '') == (f0.get('file') or '') and any(s_.get('k') in ('for', 'while') and has_xor(s_['body']) for s_ in ir.walk_stmts(h['body'])):
+                        if not any(h is x for x in helpers):
+                            helpers.append(h)
+                        callers[id(h)] = callers.get(id(h), 0) + 1
+    for f in list(fs) + helpers:
         loops = [s_ for s_ in ir.walk_stmts(f['body']) if s_.get('k') in ('for', 'while') and has_xor(s_['body']) and
                  not any(x_.get('k') in ('for', 'while', 'do') and has_xor(x_['body']) for x_ in ir.walk_stmts(s_['body']))]
+        def is_buf(w):
+            t_ = T(f, w.get('t'))
+            if t_.get('ref'):
+                t_ = T(f, t_.get('to'))
+            return w.get('k') == 'var' and t_.get('recp') == 'asl::Array'
         for lp in loops:
-            n += 1
+            n += callers.get(id(f), 1)
             x = [e for e in ir.stmt_exprs(lp['body']) if e.get('k') == 'bin' and e.get('op') == '^='][0]
-            bufv = [w for w in walk_expr(q.expand(f, x['x'])) if w.get('k') == 'var' and T(f, w.get('t')).get('recp') == 'asl::Array']
+            bufv = [w for w in walk_expr(q.expand(f, x['x'])) if is_buf(w)]
             decl_of = dict((v['id'], v) for s_ in ir.walk_stmts(f['body']) if s_.get('k') == 'decl' for v in s_['vars'])
             walk_ptr = None
             if not bufv:
@@ -448,7 +465,7 @@ def check_unmask(ctx, prog, fs):
                         walk_ptr = strip_lv(b_['e'])
                         dv = decl_of.get(walk_ptr['id'])
                         if dv is not None and dv.get('init') is not None:
-                            bufv = [w for w in walk_expr(q.expand(f, dv['init'])) if w.get('k') == 'var' and T(f, w.get('t')).get('recp') == 'asl::Array']
+                            bufv = [w for w in walk_expr(q.expand(f, dv['init'])) if is_buf(w)]
             role = '%s:word-wise XOR has 4 bytes of slack' % f['n']
             if not bufv:
                 ctx.undecided('C11.unmask', f['pq'], role, fwhere(f, lp['l']), 'XOR target buffer not identified')
